@@ -304,6 +304,8 @@ CO_ERR COSdoUploadExpedited(CO_SDO *srv)
     if (size == 0) {
         return (result);
     } else if (size <= 4) {
+        /* rewind types with an internal position (small domains and strings) */
+        (void)COObjReset(srv->Obj, srv->Node, 0);
         err = COObjRdValue(srv->Obj, srv->Node, (void *)&data, (uint8_t)size);
         if (err != CO_ERR_NONE) {
             if (srv->Abort > 0) {
@@ -345,6 +347,7 @@ CO_ERR COSdoDownloadExpedited(CO_SDO *srv)
     size = COSdoGetSize(srv, width, true);
     if ((size > 0) && (size <= 4)) {
         data   = CO_GET_LONG(srv->Frm, 4);
+        (void)COObjReset(srv->Obj, srv->Node, 0);
         err    = COObjWrValue(srv->Obj, srv->Node, (void*)&data, (uint8_t)size);
         if (err != CO_ERR_NONE) {
             if (srv->Abort > 0) {
@@ -494,7 +497,8 @@ CO_ERR COSdoInitDownloadSegmented(CO_SDO *srv)
         srv->Buf.Num  = 0;
 
         if (size <= 4) {
-            /* no action for basic type entry */
+            /* basic type entry: rewind only (small domains and strings) */
+            (void)COObjReset(srv->Obj, srv->Node, 0);
             result = CO_ERR_NONE;
         } else {
             result = COObjWrBufStart(srv->Obj, srv->Node, srv->Buf.Cur, 0);
@@ -621,7 +625,8 @@ CO_ERR COSdoInitDownloadBlock(CO_SDO *srv)
         CO_SET_LONG(srv->Frm, (uint32_t)CO_SDO_BUF_SEG, 4);
         
         if (size <= 4) {
-            /* no action for basic type entry */
+            /* basic type entry: rewind only (small domains and strings) */
+            (void)COObjReset(srv->Obj, srv->Node, 0);
             result = CO_ERR_NONE;
         } else {
             result = COObjWrBufStart(srv->Obj, srv->Node, srv->Buf.Cur, 0);
@@ -805,7 +810,8 @@ CO_ERR COSdoInitUploadBlock(CO_SDO *srv)
     srv->Buf.Num       = 0;
 
     if (size <= 4) {
-        /* no action for basic type entry */
+        /* basic type entry: rewind only (small domains and strings) */
+        (void)COObjReset(srv->Obj, srv->Node, 0);
         err = CO_ERR_NONE;
     } else {
         err = COObjRdBufStart(srv->Obj, srv->Node, srv->Buf.Cur, 0);
